@@ -34,7 +34,18 @@ def gen_cases(rnd, n):
             q['assigns'].append([tgt, rhs])
         if rnd.random() < 0.5:
             q['where'] = qgen.gen_bool_expr(rnd, acols, 1, use_join, bcols)
-        cases.append({'q': q, 'A': A, 'B': B})
+        case = {'q': q, 'A': A, 'B': B}
+        if A and rnd.random() < 0.2:
+            # a table is a list of row OBJECTS: the same row object several times (and, for a self-join, the table itself as join table);
+            # the engine works on copies, so this is unobservable
+            import copy
+            for _k in range(rnd.randint(1, 3)):
+                A.insert(rnd.randrange(len(A) + 1), copy.deepcopy(rnd.choice(A)))
+            case['share_rows'] = True
+            if use_join and rnd.random() < 0.5 and all(len(r) >= 1 for r in A):
+                case['B'] = copy.deepcopy(A)
+                q['join']['rhs'] = [0]
+        cases.append(case)
     # the swap
     for A in ([['1', '2'], ['3', '4']], [['x', 'y', 'z']], []):
         cases.append({'q': {'update': True, 'items': [], 'assigns': [[0, ['a', 1]], [1, ['a', 0]]]}, 'A': A, 'B': None})
